@@ -19,30 +19,32 @@ ASSUMPTIONS = ["*args signatures are not generated: qcore.get_args_tuple (a depe
 
 SIGS = {
     "a": "def f({self}a):",
-    "a_b": "def f({self}a, b=1):",
-    "a_kz": "def f({self}a, *, z=2):",
-    "a_b_kz": "def f({self}a, b=1, *, z=2):",
+    "a_b": "def f({self}a, b=B):",
+    "a_kz": "def f({self}a, *, z=Z):",
+    "a_b_kz": "def f({self}a, b=B, *, z=Z):",
 }
+DEFAULTS = {"val": (1, 2), "val2": (-2, 3)}      # (b, z) of the first and of the second function stamped out of one def
 
 
 class Boom(Exception):
     pass
 
 
-def make(sig, method, blocking, log, tag="val"):
+def make(sig, method, blocking, log):
+    """two functions produced by ONE def (one code object) inside a factory: same parameter names, different defaults"""
     from asynq.batching import DebugBatchItem
-    src = SIGS[sig].format(self="self, " if method else "") + """
-    params = dict(locals()); me = params.pop('self', None)
+    src = "def factory(tag, B, Z):\n" + "".join("    " + ln + "\n" for ln in (SIGS[sig].format(self="self, " if method else "") + """
+    params = dict(locals()); me = params.pop('self', None); params.pop('tag', None)
     key = [list(kv) for kv in sorted(params.items())]
     log.append(key)
     if blocking: yield DebugBatchItem("c13", 0)
     if params.get('a') == 3: raise Boom(key)
     if params.get('a') == 2: return None          # a legal result that is falsy / None ("find or None")
     return [tag, key, len(log)]
-"""
-    ns = {"log": log, "blocking": blocking, "DebugBatchItem": DebugBatchItem, "Boom": Boom, "tag": tag}
+""").split("\n")) + "    return f\n"
+    ns = {"log": log, "blocking": blocking, "DebugBatchItem": DebugBatchItem, "Boom": Boom}
     exec(src, ns)
-    return ns["f"]
+    return ns["factory"]("val", *DEFAULTS["val"]), ns["factory"]("val2", *DEFAULTS["val2"])
 
 
 def to_call(c):
@@ -80,8 +82,7 @@ def check_hist(case, ctx):
     if which == "per_instance":
         method = True
     log = []
-    raw = make(sig, method, blocking, log)
-    raw2 = make(sig, method, blocking, log, tag="val2")
+    raw, raw2 = make(sig, method, blocking, log)
     two = bool(case.get("two_functions")) and which in ("alru", "per_instance")
     deco2 = None
     first_only = which == "alru_keyfn"
@@ -106,7 +107,7 @@ def check_hist(case, ctx):
     if method:
         K = type("K", (), {"f": deco, "g": deco2 if deco2 is not None else deco})
         insts = [K(), K(), K()]
-    psig = inspect.signature(raw)
+    psigs = [inspect.signature(raw), inspect.signature(raw2)]
     model = collections.OrderedDict()
     viol = []
     classes = set()
@@ -150,10 +151,10 @@ def check_hist(case, ctx):
                 continue
             inst = insts[which_inst]
             fn = inst.g if fi else inst.f
-            ba = psig.bind(inst, *args, **kwargs)
+            ba = psigs[fi].bind(inst, *args, **kwargs)
         else:
             fn = deco2 if fi else deco
-            ba = psig.bind(*args, **kwargs)
+            ba = psigs[fi].bind(*args, **kwargs)
         ba.apply_defaults()
         items = sorted((k, v) for k, v in ba.arguments.items() if k != "self")
         pkey = [list(kv) for kv in items]
